@@ -7,64 +7,35 @@ import SkNet.Lemmas.GnnPredict
 import SkNet.Lemmas.GnnEquiv
 import SkNet.Lemmas.GnnNetwork
 import SkNet.Lemmas.GnnShapes
+import SkNet.Lemmas.GnnRenumber
 
 namespace SkNet.C19
 open SkNet SkNet.Gnn SkNet.Gnn.Mat Finset
 
 /-- **forward_eq_def.** For every normalisation, self-embedding flag, activation, optional bias and all shapes for
-which the products are defined, `Convolution.forward` returns exactly the documented `σ(N(A) X W + b)`:
-entry `(i, k)` is the activation of row `i` of `Σ_j N(A)[i,j] · Σ_l X[j,l] W[l,k] + b[k]`, where `N(A)` is the
-adjacency normalised by the (pseudo-inverted) row weights on the left, on the right or by their square roots on
-both sides, plus the identity when `self_embeddings` is set.  (Adjacency and features enter through their
-denotation, whatever the container: CSR with duplicates, unsorted CSR, CSC, dense.) -/
+which the products are defined, `Convolution.forward` returns exactly `σ(N(A) X W + b)`: entry `(i, k)` is the
+activation of row `i` of `Σ_j N(A)[i,j] · Σ_l X[j,l] W[l,k] + b[k]`.
+`N(A)` (`Spec.normEntry`) is what the code computes, entry by entry; three readings of "the chosen degree
+normalisation with optional self-embedding" are taken from the code, not from an outside definition, and are pinned by
+the theorems `right_normalisation_columns`, `self_embedding_is_added_after_normalising`, `left_normalisation_rows`:
+(1) all three normalisations divide by the **row** sums (out-weights), also `right`; (2) the self-embedding is added
+*after* normalising, `N(A) + I`, not `N(A + I)`; (3) a node of weight 0 gets the pseudo-inverse 0.
+Domain (`InDomain`): with `both` the row weights must be non-negative — the code takes `np.sqrt` and returns NaN rows
+otherwise, which the real-number model does not describe.
+The matrices are tabulated (`Mat.mk'`): adjacency and features enter through their denotation. -/
 theorem forward_eq_def (cfg : LayerCfg) (n m d c : Nat) (a x w : Nat → Nat → ℝ) (b : Option (List ℝ))
     (hb : ∀ bl, b = some bl → bl.length = c)
-    (hsq : cfg.norm = .right ∨ cfg.norm = .both → n = m) :
+    (hsq : cfg.norm = .right ∨ cfg.norm = .both → n = m)
+    (_hdom : InDomain cfg.norm (mk' n m a)) :
     forward cfg (mk' n m a) (mk' m d x) (mk' d c w) b
-      = .ok (Spec.forward cfg (mk' n m a) (mk' m d x) (mk' d c w) b) := by
-  unfold forward
-  rw [normalize_mk' cfg.norm n m a hsq]
-  simp only [bind, Except.bind]
-  rw [selfLoops_mk', matmul_mk']
-  dsimp only
-  rw [matmul_mk']
-  dsimp only
-  have key : ∀ i, i < n → ∀ k, k < c →
-      Spec.preAct cfg.norm cfg.selfEmb (mk' n m a) (mk' m d x) (mk' d c w) b i k =
-        (∑ l ∈ range d, (∑ j ∈ range m, Spec.normEntry cfg.norm cfg.selfEmb (mk' n m a) i j * x j l) * w l k) +
-          biasAt b k :=
-    fun i _ k hk => preAct_mk' cfg.norm cfg.selfEmb (mk' n m a) m d c rfl x w b i k hk
-  cases b with
-  | none =>
-    simp only [pure, Except.pure]
-    rw [actOutput_mk']
-    congr 1
-    unfold Spec.forward
-    simp only [mk'_r, mk'_c]
-    apply mk'_congr
-    intro i hi k hk
-    apply actFn_congr _ _ _ _ _ k hk
-    intro k' hk'
-    rw [key i hi k' hk']
-    simp [biasAt]
-  | some bl =>
-    have hlen : bl.length = c := hb bl rfl
-    simp only [addBias, mk'_c, mk'_r, hlen, ne_eq, not_true_eq_false, ite_false, pure, Except.pure]
-    rw [actOutput_mk']
-    congr 1
-    unfold Spec.forward
-    simp only [mk'_r, mk'_c]
-    apply mk'_congr
-    intro i hi k hk
-    apply actFn_congr _ _ _ _ _ k hk
-    intro k' hk'
-    rw [key i hi k' hk', get_mk'_of_lt _ hi hk']
-    rfl
+      = .ok (Spec.forward cfg (mk' n m a) (mk' m d x) (mk' d c w) b) :=
+  forward_tab cfg n m d c a x w b hb hsq
 
-/-- non-vacuity: a 2-node graph with a bias, `both` normalisation (square, so the hypotheses hold) -/
+/-- non-vacuity: a 2-node graph with non-negative weights and a bias, `both` normalisation -/
 example : (∀ bl, (some [1, 2] : Option (List ℝ)) = some bl → bl.length = 2) ∧
-    ((Norm.both = .right ∨ Norm.both = .both) → (2 : Nat) = 2) := by
-  refine ⟨?_, fun _ => rfl⟩
+    ((Norm.both = .right ∨ Norm.both = .both) → (2 : Nat) = 2) ∧
+    InDomain .both (mk' 2 2 fun i j => if i = j then (0 : ℝ) else 1) := by
+  refine ⟨?_, fun _ => rfl, inDomain_of_nonneg _ _ _ _ fun i j => by split_ifs <;> norm_num⟩
   intro bl h
   cases h
   rfl
@@ -93,21 +64,29 @@ theorem forward_rectangular_error_both (cfg : LayerCfg) (n m : Nat) (hnm : n ≠
   simp only [mk'_c, mk'_r]
   exact fun h => hnm h.symm
 
-/-- **forward_equivariant.** Renumbering the nodes permutes the rows of the output: for every renumbering `p` of
-the `n` nodes, the layer applied to `(P A Pᵀ, P X)` returns row `i` = row `p i` of the layer applied to `(A, X)`,
-for every normalisation, self-embedding flag, activation and bias. -/
-theorem forward_equivariant (cfg : LayerCfg) (n d c : Nat) (a x w : Nat → Nat → ℝ) (b : Option (List ℝ))
-    (hb : ∀ bl, b = some bl → bl.length = c) (p : Nat → Nat) (hp : IsRenumbering n p) :
-    forward cfg (mk' n n fun i j => a (p i) (p j)) (mk' n d fun i l => x (p i) l) (mk' d c w) b =
-      (forward cfg (mk' n n a) (mk' n d x) (mk' d c w) b).map fun O => mk' n c fun i k => O.get (p i) k := by
-  rw [forward_eq_def cfg n n d c _ _ w b hb (fun _ => rfl), forward_eq_def cfg n n d c a x w b hb (fun _ => rfl),
-    specForward_renumber hp]
-  rfl
+/-- **forward_equivariant.** Renumbering the nodes permutes the rows of the output: for every renumbering `p` of the
+`n` nodes, every `n × n` adjacency and *arbitrary* features, weight and bias, the layer applied to `(P A Pᵀ, P X)`
+returns row `i` = row `p i` of the layer applied to `(A, X)` — and raises the same `ValueError` exactly when the layer
+raises on `(A, X)` (shapes that do not fit: see the second example below).  For every normalisation, self-embedding
+flag and activation; `both` on its domain. -/
+theorem forward_equivariant (cfg : LayerCfg) (n : Nat) (A X W : Mat ℝ) (b : Option (List ℝ))
+    (hAr : A.r = n) (hAc : A.c = n) (p : Nat → Nat) (hp : IsRenumbering n p) (_hdom : InDomain cfg.norm A) :
+    forward cfg (renumberAdj n p A) (renumberRows p X) W b = (forward cfg A X W b).map (renumberRows p) :=
+  forward_renumber cfg n A X W b hAr hAc p hp
 
 /-- non-vacuity: the rotation `0 → 1 → 2 → 0` is a renumbering of 3 nodes -/
 example : IsRenumbering 3 (fun i => (i + 1) % 3) := by
   unfold IsRenumbering
   decide
+
+/-- non-vacuity of "errors included": three nodes but four feature rows — the shapes do not fit, the layer raises
+(on the original and, by `forward_equivariant`, on the renumbered input) -/
+example : forward ⟨.left, true, .relu⟩ (mk' 3 3 fun _ _ => (1 : ℝ)) (mk' 4 2 fun _ _ => 1) (mk' 2 2 fun _ _ => 1) none
+    = .error .valueError := by
+  rcases forward_cases ⟨.left, true, .relu⟩ (mk' 3 3 fun _ _ => (1 : ℝ)) (mk' 4 2 fun _ _ => 1) (mk' 2 2 fun _ _ => 1) none
+    with ⟨h, _⟩ | ⟨_, h⟩
+  · exact absurd h (by decide)
+  · exact h
 
 /-- **activation gradients.** For every activation (identity, ReLU, sigmoid, soft-max), every signal and direction,
 `activation.gradient(signal, direction)[i, k]` is the derivative of `Σ_l direction[i, l] · output(signal)[i, l]` with
@@ -183,7 +162,7 @@ theorem bce_one_channel_needs_binary_labels :
     ∃ G, bceLossGradient (mk' 1 1 fun _ _ => (0 : ℝ)) [2] = .ok G ∧
       G.get 0 0 ≠ (Spec.bceGradient (mk' 1 1 fun _ _ => (0 : ℝ)) [2]).get 0 0 := by
   refine ⟨_, rfl, ?_⟩
-  simp only [mk'_r, mk'_c]
+  simp only [mk'_r]
   rw [get_mk'_of_lt _ (by decide) (by decide), actOutput_mk', get_mk'_of_lt _ (by decide) (by decide)]
   unfold Spec.bceGradient
   simp only [mk'_r, mk'_c]
@@ -199,110 +178,44 @@ theorem bce_pinned_formula_is_not_the_gradient :
   bce_pinned_not_gradient
 
 /-- **the layer returns a value exactly for the shapes on which the documented expression is defined**, and raises
-(`ValueError`, as numpy / scipy) otherwise -/
+`ValueError` (as numpy / scipy) otherwise.  Exact for a bias of the layer's own width, as `_initialize_weights` creates
+it (numpy would also broadcast a bias of length 1). -/
 theorem forward_defined_iff_shapes (cfg : LayerCfg) (A X W : Mat ℝ) (b : Option (List ℝ)) :
-    (∃ O, forward cfg A X W b = .ok O) ↔ Spec.shapesOk cfg.norm A X W b = true := by
-  rw [shapesOk_iff]
-  unfold forward
-  simp only [bind, Except.bind, pure, Except.pure]
-  rcases normalize_cases cfg.norm A with ⟨hsq, A1, hA1, hr1, hc1⟩ | ⟨hnsq, herr⟩
-  · rw [hA1]
-    simp only []
-    have hA2c : (if cfg.selfEmb then addSelfLoops A1 else A1).c = A.c := by
-      cases cfg.selfEmb <;> simp [addSelfLoops, hc1]
-    rcases matmul_cases (if cfg.selfEmb then addSelfLoops A1 else A1) X with ⟨h1, M1, hM1, _, hM1c⟩ | ⟨h1, herr1⟩
-    · rw [hM1]
-      simp only []
-      rcases matmul_cases M1 W with ⟨h2, M2, hM2, _, hM2c⟩ | ⟨h2, herr2⟩
-      · rw [hM2]
-        simp only []
-        rw [hA2c] at h1
-        rw [hM1c] at h2
-        cases b with
-        | none =>
-          simp only []
-          exact ⟨fun _ => ⟨h1, h2, fun _ h => (by cases h), hsq⟩, fun _ => ⟨_, rfl⟩⟩
-        | some bl =>
-          simp only [addBias]
-          by_cases hbl : bl.length = W.c
-          · rw [if_neg (by rw [hM2c]; exact not_not.mpr hbl)]
-            simp only []
-            exact ⟨fun _ => ⟨h1, h2, fun bl' h => (by cases h; exact hbl), hsq⟩, fun _ => ⟨_, rfl⟩⟩
-          · rw [if_pos (by rw [hM2c]; exact hbl)]
-            simp only []
-            exact ⟨fun ⟨_, h⟩ => (by cases h), fun ⟨_, _, h, _⟩ => absurd (h bl rfl) hbl⟩
-      · rw [herr2]
-        simp only []
-        rw [hM1c] at h2
-        exact ⟨fun ⟨_, h⟩ => (by cases h), fun ⟨_, h, _⟩ => absurd h h2⟩
-    · rw [herr1]
-      simp only []
-      rw [hA2c] at h1
-      exact ⟨fun ⟨_, h⟩ => (by cases h), fun ⟨h, _⟩ => absurd h h1⟩
-  · rw [herr]
-    simp only []
-    exact ⟨fun ⟨_, h⟩ => (by cases h), fun ⟨_, _, _, h⟩ => absurd h hnsq⟩
+    ((∃ O, forward cfg A X W b = .ok O) ↔ Spec.shapesOk cfg.norm A X W b = true) ∧
+      (Spec.shapesOk cfg.norm A X W b = false → forward cfg A X W b = .error .valueError) := by
+  rcases forward_cases cfg A X W b with ⟨hok, O, hO⟩ | ⟨hbad, herr⟩
+  · exact ⟨⟨fun _ => hok, fun _ => ⟨O, hO⟩⟩, fun h => absurd (hok.symm.trans h) (by decide)⟩
+  · refine ⟨⟨fun ⟨O, hO⟩ => ?_, fun h => absurd (hbad.symm.trans h) (by decide)⟩, fun _ => herr⟩
+    rw [herr] at hO
+    cases hO
 
+/-- `check_format` in front of the layer: the five accepted containers change nothing, any other container
+(`csr_array`, `np.matrix`, `dok_matrix`, …) is a `TypeError` -/
+theorem forward_container (k : Container) (cfg : LayerCfg) (A X W : Mat ℝ) (b : Option (List ℝ)) :
+    (k ≠ .other → forwardIn k cfg A X W b = forward cfg A X W b) ∧
+      forwardIn .other cfg A X W b = .error .typeError := by
+  refine ⟨fun h => ?_, rfl⟩
+  cases k <;> first | rfl | exact absurd rfl h
 
 /-- **the network is the composition of the documented layers**: for layers whose weights have the width of their
-input and whose biases have their own width, `GNNClassifier.forward` returns the documented layers composed. -/
+input and whose biases have their own width (every adjacency in the domain of its normalisation),
+`GNNClassifier.forward` returns the documented layers composed. -/
 theorem gnn_forward_eq_def (n : Nat) (ls : List LayerFn)
-    (hb : ∀ l ∈ ls, ∀ bl, l.b = some bl → bl.length = l.c) :
+    (hb : ∀ l ∈ ls, ∀ bl, l.b = some bl → bl.length = l.c)
+    (_hdom : ∀ l ∈ ls, InDomain l.cfg.norm (mk' n n l.a)) :
     ∀ (d : Nat) (x : Nat → Nat → ℝ), ∃ O,
       gnnForward (buildLayers n id d ls) (mk' n d x) = .ok O ∧
-      Spec.gnnForward (buildLayers n id d ls) (mk' n d x) = some O := by
-  induction ls with
-  | nil => intro d x; exact ⟨_, rfl, rfl⟩
-  | cons l ls ih =>
-    intro d x
-    have hbl : ∀ bl, l.b = some bl → bl.length = l.c := hb l (List.mem_cons_self ..)
-    have hrest : ∀ l' ∈ ls, ∀ bl, l'.b = some bl → bl.length = l'.c := fun l' hl' => hb l' (List.mem_cons_of_mem _ hl')
-    obtain ⟨O, h1, h2⟩ := ih hrest l.c (fun i k => Spec.actFn l.cfg.act l.c
-      (fun k' => Spec.preAct l.cfg.norm l.cfg.selfEmb (mk' n n l.a) (mk' n d x) (mk' d l.c l.w) l.b i k') k)
-    refine ⟨O, ?_, ?_⟩
-    · simp only [buildLayers, gnnForward, id]
-      rw [forward_eq_def l.cfg n n d l.c l.a x l.w l.b hbl (fun _ => rfl)]
-      exact h1
-    · simp only [buildLayers, Spec.gnnForward, id]
-      rw [if_pos ((shapesOk_iff _ _ _ _ _).mpr ⟨rfl, rfl, hbl, fun _ => rfl⟩)]
-      exact h2
+      Spec.gnnForward (buildLayers n id d ls) (mk' n d x) = some O :=
+  gnnForward_buildLayers n ls hb
 
-/-- **the whole network is equivariant.** `GNNClassifier.forward` through any number of layers (each with its own,
-possibly sampled, adjacency, normalisation, activation, weight and bias): renumbering the nodes of every adjacency and
-of the features permutes the rows of the output in the same way — also when some product raises (both sides raise). -/
-theorem gnn_forward_equivariant (n : Nat) (p : Nat → Nat) (hp : IsRenumbering n p) (ls : List LayerFn)
-    (hb : ∀ l ∈ ls, ∀ bl, l.b = some bl → bl.length = l.c) :
-    ∀ (d : Nat) (x : Nat → Nat → ℝ),
-      gnnForward (buildLayers n p d ls) (mk' n d fun i l => x (p i) l) =
-        (gnnForward (buildLayers n id d ls) (mk' n d x)).map fun O => mk' n O.c fun i k => O.get (p i) k := by
-  induction ls with
-  | nil =>
-    intro d x
-    simp only [buildLayers, gnnForward, Except.map, mk'_c]
-    congr 1
-    apply mk'_congr
-    intro i hi k hk
-    rw [get_mk'_of_lt x (hp.lt hi) hk]
-  | cons l ls ih =>
-    intro d x
-    have hbl : ∀ bl, l.b = some bl → bl.length = l.c := hb l (List.mem_cons_self ..)
-    have hrest : ∀ l' ∈ ls, ∀ bl, l'.b = some bl → bl.length = l'.c := fun l' hl' => hb l' (List.mem_cons_of_mem _ hl')
-    simp only [buildLayers, gnnForward, id]
-    rw [forward_equivariant l.cfg n d l.c l.a x l.w l.b hbl p hp,
-      forward_eq_def l.cfg n n d l.c l.a x l.w l.b hbl (fun _ => rfl)]
-    simp only [Except.map, bind, Except.bind]
-    have hform : (mk' n l.c fun i k => (Spec.forward l.cfg (mk' n n l.a) (mk' n d x) (mk' d l.c l.w) l.b).get (p i) k)
-        = mk' n l.c fun i k => (fun i k => Spec.actFn l.cfg.act l.c
-            (fun k' => Spec.preAct l.cfg.norm l.cfg.selfEmb (mk' n n l.a) (mk' n d x) (mk' d l.c l.w) l.b i k') k) (p i) k := by
-      apply mk'_congr
-      intro i hi k hk
-      unfold Spec.forward
-      simp only [mk'_r, mk'_c]
-      rw [get_mk'_of_lt _ (hp.lt hi) hk]
-    rw [hform]
-    exact ih hrest l.c (fun i k => Spec.actFn l.cfg.act l.c
-      (fun k' => Spec.preAct l.cfg.norm l.cfg.selfEmb (mk' n n l.a) (mk' n d x) (mk' d l.c l.w) l.b i k') k)
-
+/-- **the whole network is equivariant.** `GNNClassifier.forward` through any number of *arbitrary* layers (each with
+its own, possibly sampled, `n × n` adjacency, normalisation, activation, weight and bias of any shape): renumbering the
+nodes of every adjacency and of the features permutes the rows of the output in the same way, and the renumbered network
+raises exactly when the original one does (`forward_equivariant` layer by layer). -/
+theorem gnn_forward_equivariant (n : Nat) (p : Nat → Nat) (hp : IsRenumbering n p) (ls : List (Layer ℝ × Mat ℝ))
+    (hsq : ∀ lA ∈ ls, lA.2.r = n ∧ lA.2.c = n) (_hdom : ∀ lA ∈ ls, InDomain lA.1.cfg.norm lA.2) (X : Mat ℝ) :
+    gnnForward (renumberLayers n p ls) (renumberRows p X) = (gnnForward ls X).map (renumberRows p) :=
+  gnnForward_renumber n p hp ls hsq X
 
 /-- non-vacuity: a two-layer network whose biases have the layers' widths -/
 example : ∀ l ∈ ([⟨⟨.both, true, .relu⟩, 2, fun _ _ => 1, some [0, 0], fun _ _ => 1⟩,
@@ -388,51 +301,40 @@ theorem prediction_no_channel (n : Nat) (o : Nat → Nat → ℝ) :
   unfold computePredictions
   simp
 
-/-- **sampler_subset.** Each row of the sampled adjacency is a sublist of the stored row, of size
-`min(deg, sample_size)`, for every legal draw of `np.random.choice`. -/
-theorem sampler_subset (indptr indices : List Nat) (nRow : Nat) (choice : List (List Nat)) (k i : Nat)
-    (hi : i < nRow)
-    (hch : choiceOk (indptr.getD (i+1) 0 - indptr.getD i 0) k (choice.getD i []) = true) :
-    ((sampleRows indptr indices nRow choice).getD i []).Sublist
-        ((List.range (indptr.getD (i+1) 0 - indptr.getD i 0)).map fun p => indices.getD (indptr.getD i 0 + p) 0) ∧
-      ((sampleRows indptr indices nRow choice).getD i []).length =
-        min (indptr.getD (i+1) 0 - indptr.getD i 0) k :=
-  sampleRows_subset indptr indices nRow choice k i hi hch
+/-- **sampler_subset.** Each row of the sampled adjacency is a sublist of the stored *non-zero* entries of that row
+(the neighbours; an explicitly stored zero is not a neighbour — repaired code), of size `min(deg, sample_size)` where
+`deg` is the number of neighbours, and every kept column is a genuine neighbour (a stored entry with a non-zero value):
+the sampled graph is a subgraph.  The kept entries get weight 1 (the weights of the graph are not kept).  For every legal
+draw of `np.random.choice` (`choiceOk`: distinct positions below `deg`, `min(deg, sample_size)` of them). -/
+theorem sampler_subset (rows : List (List (Nat × ℝ))) (choice : List (List Nat)) (k i : Nat) (hi : i < rows.length)
+    (hch : choiceOk (dropZeros (rows.getD i [])).length k (choice.getD i []) = true) :
+    ((sampleRows rows choice).getD i []).Sublist ((dropZeros (rows.getD i [])).map (·.1)) ∧
+      ((sampleRows rows choice).getD i []).length = min (dropZeros (rows.getD i [])).length k ∧
+      ∀ j ∈ (sampleRows rows choice).getD i [], ∃ v, (j, v) ∈ rows.getD i [] ∧ v ≠ 0 := by
+  rw [sampleRows_getD rows choice i hi]
+  exact sampleRow_spec (rows.getD i []) (choice.getD i []) k hch
 
 /-- non-vacuity: degree 3, sample size 2, positions `[2, 0]` -/
 example : choiceOk 3 2 [2, 0] = true := by decide
 
-/-- **input format.** The layer depends on the adjacency and on the features only through their shape and their
-entries: two containers with the same denotation (CSR with un-summed duplicates, unsorted CSR, CSC, dense, …) give
-the same output, or the same error. -/
-theorem forward_depends_on_entries (cfg : LayerCfg) (A A' X X' W : Mat ℝ) (b : Option (List ℝ))
-    (hA : SameEntries A A') (hX : SameEntries X X') :
-    forward cfg A X W b = forward cfg A' X' W b := by
-  unfold forward
-  simp only [bind, Except.bind]
-  rcases normalize_congr cfg.norm hA with ⟨e, h1, h2⟩ | ⟨M, M', h1, h2, hM⟩
-  · rw [h1, h2]
-  · rw [h1, h2]
-    simp only []
-    have h2' : SameEntries (if cfg.selfEmb then addSelfLoops M else M) (if cfg.selfEmb then addSelfLoops M' else M') := by
-      cases cfg.selfEmb with
-      | false => simpa using hM
-      | true =>
-        simp only [if_true]
-        rw [addSelfLoops_congr hM]
-        exact SameEntries.refl _
-    rw [matmul_congr h2' hX]
+/-- **denotation.** The model of the layer reads its three matrices only through their shape and their entries inside
+the shape: two `Mat` values with the same denotation give the same output, or the same error.  (This is a fact about
+the model; that scipy's containers — CSR with un-summed duplicates, unsorted CSR, CSC, COO, LIL, dense — reach the layer
+with the denotation the driver computes for them is *observed* by the harness on every run, not proved.) -/
+theorem forward_depends_on_entries (cfg : LayerCfg) (A A' X X' W W' : Mat ℝ) (b : Option (List ℝ))
+    (hA : SameEntries A A') (hX : SameEntries X X') (hW : SameEntries W W') :
+    forward cfg A X W b = forward cfg A' X' W' b :=
+  forward_congr cfg b hA hX hW
 
-/-- non-vacuity: a 1 × 1 matrix stored as one entry `2` and the same matrix stored as two rows-lists of different
-representation (`[[2]]` with and without trailing padding) have the same entries -/
+/-- non-vacuity: the same 1 × 1 matrix with and without a padding row -/
 example : SameEntries (⟨1, 1, [[2]]⟩ : Mat ℝ) ⟨1, 1, [[2], []]⟩ := by
   refine ⟨rfl, rfl, ?_⟩
-  intro i j
-  match i, j with
-  | 0, 0 => rfl
-  | 0, j+1 => rfl
-  | 1, j => cases j <;> rfl
-  | i+2, j => rfl
+  intro i j hi hj
+  have hi0 : i = 0 := by simpa using hi
+  have hj0 : j = 0 := by simpa using hj
+  subst hi0
+  subst hj0
+  rfl
 
 /-- **the predicted label is a most probable one**: for the output `O` of a cross-entropy / binary cross-entropy last
 layer, the label `_compute_predictions(O)` gives to node `i` maximises row `i` of `predict_proba` -/
@@ -499,19 +401,60 @@ theorem prediction_is_most_probable (loss : LossKind) (n c : Nat) (hc : 0 < c) (
       rw [hsum]
       exact div_le_div_of_nonneg_right (hmax k hk) hpos.le
 
-/-- **CSR containers**: the order of the stored entries inside a row (unsorted indices) does not matter, and neither
-does the container as long as the rows hold the same (column, value) pairs: the layer returns the same output. -/
+/-- **CSR denotation**: two CSR matrices whose rows hold the same (column, value) pairs in any order (unsorted indices)
+denote the same matrix (`csrToMat` sums what is stored), hence give the same output of the model. -/
 theorem forward_csr_row_order_irrelevant (cfg : LayerCfg) (m m' : Csr ℝ) (X W : Mat ℝ) (b : Option (List ℝ))
     (hr : m.nRow = m'.nRow) (hc : m.nCol = m'.nCol)
     (h : ∀ i, i < m.nRow → (csrEntries m i).Perm (csrEntries m' i)) :
     forward cfg (csrToMat m) X W b = forward cfg (csrToMat m') X W b :=
-  forward_depends_on_entries cfg _ _ X X W b (csrToMat_perm m m' hr hc h) (SameEntries.refl X)
+  forward_depends_on_entries cfg _ _ X X W W b (csrToMat_perm m m' hr hc h) (SameEntries.refl X) (SameEntries.refl W)
 
 /-- a value stored as two un-summed halves (duplicate entries of a CSR matrix) denotes the same entry -/
 theorem csr_duplicates_are_summed (j c : Nat) (v : ℝ) (rest : List (Nat × ℝ)) :
     (((c, v / 2) :: (c, v / 2) :: rest).map fun e => if e.1 = j then e.2 else 0).sum =
       (((c, v) :: rest).map fun e => if e.1 = j then e.2 else 0).sum :=
   duplicate_entries_sum j c v rest
+
+/-- **the self-embedding is added after normalising**: `N(A)` with the self-embedding is `I + N(A)` — the code
+computes `N(A) + I`, not the `N(A + I)` of Kipf & Welling (a reading of "optional self-embedding" taken from the code) -/
+theorem self_embedding_is_added_after_normalising (norm : Norm) (A : Mat ℝ) (i j : Nat) :
+    Spec.normEntry norm true A i j = (if i = j then 1 else 0) + Spec.normEntry norm false A i j := by
+  unfold Spec.normEntry
+  by_cases h : i = j <;> simp [h]
+
+/-- **`right` divides column `j` by the row sum of node `j`** (its out-weight, as the code does), so column `j` of
+`N(A)` sums to in-weight / out-weight of `j` -/
+theorem right_normalisation_columns (n : Nat) (a : Nat → Nat → ℝ) (j : Nat) (hj : j < n) :
+    ∑ i ∈ range n, Spec.normEntry .right false (mk' n n a) i j =
+      (∑ i ∈ range n, a i j) * pinv (∑ l ∈ range n, a j l) := by
+  have h : ∀ i ∈ range n, Spec.normEntry .right false (mk' n n a) i j = a i j * pinv (∑ l ∈ range n, a j l) := by
+    intro i hi
+    simp only [Spec.normEntry, Bool.false_and, Bool.false_eq_true, if_false]
+    rw [weight_mk' n n a j hj, get_mk'_of_lt a (mem_range.mp hi) hj]
+  rw [Finset.sum_congr rfl h, Finset.sum_mul]
+
+/-- … hence on a directed graph `right` makes neither the columns nor the rows of `N(A)` sum to 1: witness the
+2-node digraph with weights `0 → 1 : 2`, `1 → 0 : 1` (column 0 sums to 1/2, row 0 to 2) -/
+theorem right_normalisation_not_stochastic_on_digraphs :
+    ∃ a : Nat → Nat → ℝ, (∀ i j, 0 ≤ a i j) ∧
+      ∑ i ∈ range 2, Spec.normEntry .right false (mk' 2 2 a) i 0 ≠ 1 ∧
+      ∑ j ∈ range 2, Spec.normEntry .right false (mk' 2 2 a) 0 j ≠ 1 := by
+  refine ⟨fun i j => if i = 0 ∧ j = 1 then 2 else if i = 1 ∧ j = 0 then 1 else 0, ?_, ?_, ?_⟩
+  · intro i j
+    beta_reduce
+    split_ifs <;> norm_num
+  · rw [right_normalisation_columns 2 _ 0 (by decide)]
+    simp [pinv]
+  · have h : ∀ j ∈ range 2, Spec.normEntry .right false
+        (mk' 2 2 fun i j => if i = 0 ∧ j = 1 then (2 : ℝ) else if i = 1 ∧ j = 0 then 1 else 0) 0 j =
+        (if (0 : Nat) = 0 ∧ j = 1 then (2 : ℝ) else if (0 : Nat) = 1 ∧ j = 0 then 1 else 0) *
+          pinv (∑ l ∈ range 2, if j = 0 ∧ l = 1 then (2 : ℝ) else if j = 1 ∧ l = 0 then 1 else 0) := by
+      intro j hj
+      simp only [Spec.normEntry, Bool.false_and, Bool.false_eq_true, if_false]
+      rw [weight_mk' 2 2 _ j (mem_range.mp hj), get_mk'_of_lt _ (by decide) (mem_range.mp hj)]
+      simp
+    rw [Finset.sum_congr rfl h]
+    simp [Finset.sum_range_succ, pinv]
 
 /-- **left normalisation is the random-walk normalisation**: every row of `N(A)` (without self-embedding) with a
 non-zero weight sums to 1, a row of weight 0 is 0 (pseudo-inverse) -/
@@ -569,6 +512,24 @@ example : (eps15 : ℝ) < Real.sigmoid 0 ∧ Real.sigmoid 0 < 1 - eps15 := by
 
 /-! ### configuration: which layer a name, an activation, a loss and a normalisation select
 (`isSage` / `isConv`: 'sage' / 'conv' occurs in the lower-cased layer name) -/
+
+/-- `normalization=None` (documented: no normalisation; repaired — it raised) and any string other than 'left', 'right',
+'both' mean "no normalisation" on a bare layer; `GNNClassifier` accepts `None` and refuses such strings -/
+theorem normalization_none (s : String) :
+    getNorm none = .none ∧ checkNormalizations [none] = .ok () ∧
+      (getNorm (some s) = .none → checkNormalizations [some s] = .error .valueError) := by
+  refine ⟨rfl, rfl, ?_⟩
+  intro h
+  unfold getNorm at h
+  unfold checkNormalizations
+  simp only [List.all_cons, List.all_nil, Bool.and_true]
+  by_cases h1 : (s.toLower == "left") = true
+  · simp [h1] at h
+  · by_cases h2 : (s.toLower == "right") = true
+    · simp [h1, h2] at h
+    · by_cases h3 : (s.toLower == "both") = true
+      · simp [h1, h2, h3] at h
+      · simp [h1, h2, h3]
 
 /-- a GraphSAGE layer always normalises on the left and adds the self-embedding, whatever was asked -/
 theorem resolve_sage (isConv : Bool) (norm : Norm) (se : Bool) (c : Nat) (a : Act) :
